@@ -185,7 +185,7 @@ def snapshot(sched, src):
             refs.append([it.name.lower(), routine_refs(it.ir)])
     return {'cache': sorted(cache), 'nodes': nodes, 'edges': edges, 'refs': sorted(refs)}
 
-def direct_checks(sched, src):
+def direct_checks(sched, src, seed_locals=('driver',)):
     """the consistency statements of the property, checked on the live objects"""
     from loki.batch.item import FileItem, ModuleItem, ProcedureItem, ExternalItem
     from loki.batch import Transformation
@@ -217,6 +217,23 @@ def direct_checks(sched, src):
             errs.append('%s is an external (unresolved) node' % it.name); continue
         if byname.get(it.name.lower()) is not it:
             errs.append('graph node %s is not the cached item of that name' % it.name)
+    # every seed is a surviving item under its current name, and the scheduler's own seed list names graph nodes
+    proc_locals = {i.local_name for i in nodes if isinstance(i, ProcedureItem)}
+    for sl in seed_locals:
+        if sl.lower() not in proc_locals:
+            errs.append('seed routine %s (current name) is not a node of the graph' % sl)
+    for sd in sched.seeds:
+        sd = str(sd).lower()
+        if sd not in nodeset and sd not in proc_locals:
+            errs.append('Scheduler.seeds entry %s names no graph node' % sd)
+    # no re-discovered original next to its transformed copy: a node's file is not shadowed by a "duplicate of" file item
+    fnames = {str(it.name) for it in fac.item_cache.values() if isinstance(it, FileItem)}
+    for it in nodes:
+        if isinstance(it, (ProcedureItem, ModuleItem)):
+            fi = fac.get_file_item_from_source(it.source)
+            if fi is not None and ('duplicate of ' + str(fi.name)) in fnames:
+                errs.append('graph node %s belongs to the re-discovered original %s although a transformed copy exists'
+                            % (it.name, str(fi.name).replace(src.lower(), '')))
     succ = {}
     for a, b in sched.dependencies:
         if a.name.lower() not in nodeset or b.name.lower() not in nodeset:
@@ -376,9 +393,14 @@ def run_history(case):
     try:
         src = os.path.join(root, 'src'); os.makedirs(src)
         write_project(case['proj'], src)
-        sched = Scheduler(paths=[src], config=SchedulerConfig.from_dict(copy.deepcopy(CONFIG)), seed_routines=['driver'], full_parse=True)
+        seeds = list(case.get('seeds') or ['driver'])
+        # additional seeds are given by their qualified item name (a bare local name would also select the sibling copies
+        # inside cloned modules)
+        where = {r['name']: (f['module'] or '') for f in case['proj']['files'] for r in f['routines']}
+        qualified = [n if n == 'driver' else '%s#%s' % (where[n], n) for n in seeds]
+        sched = Scheduler(paths=[src], config=SchedulerConfig.from_dict(copy.deepcopy(CONFIG)), seed_routines=qualified, full_parse=True)
         out = {'snaps': [snapshot(sched, src)], 'ops': [], 'violations': []}
-        v = direct_checks(sched, src)
+        v = direct_checks(sched, src, seeds)
         if v: out['violations'].append([0, v])
         ops = case['ops']
         for j, op0 in enumerate(ops):
@@ -393,7 +415,9 @@ def run_history(case):
                 return out
             out['ops'].append(op)
             out['snaps'].append(snapshot(sched, src))
-            v = direct_checks(sched, src)
+            if op['t'] == 'dep':      # ground truth: a suffixing step renames every kernel entry point
+                seeds = [n if n == 'driver' else n + op['suffix'] for n in seeds]
+            v = direct_checks(sched, src, seeds)
             if v:
                 out['violations'].append([len(out['ops']), v]); return out
         if case.get('compile'):
@@ -419,9 +443,9 @@ def disk_model(proj):
         out.append(C('mk_source', '/' + f['path'].lower(), us))
     return out
 
-def seed_model(proj):
-    f = proj['files'][0]
-    return C('NProc', f['module'] or '', 'driver')
+def seed_model(proj, seeds=None):
+    where = {r['name']: (f['module'] or '') for f in proj['files'] for r in f['routines']}
+    return [C('NProc', where[n], n) for n in (seeds or ['driver'])]
 
 def op_model(op):
     t = op['t']
@@ -472,7 +496,13 @@ class C25(Property):
             comp = (i % 2 == 0) if tier != 'quick' else (i % 5 == 0)
             proj = gen_project(rng, rng.randint(4, 9), allow_plain, allow_orphan=not comp)
             ops = gen_ops(rng, allow_wrap=not allow_plain, nmax=3 if tier == 'quick' else 4)
-            yield {'kind': 'history', 'proj': proj, 'ops': ops, 'compile': comp}
+            # library-style entry points: 0-2 kernel-role routines are seeds next to the driver (Scheduler.seeds must follow
+            # their renaming element by element)
+            seeds = ['driver']
+            kernels = [r['name'] for f in proj['files'] for r in f['routines'] if r['name'] != 'driver']
+            if kernels and rng.random() < 0.6:
+                seeds += rng.sample(kernels, min(len(kernels), rng.choice([1, 2, 2])))
+            yield {'kind': 'history', 'proj': proj, 'ops': ops, 'compile': comp, 'seeds': seeds}
 
     def run_impl(self, case):
         return run_history(case)
@@ -481,7 +511,7 @@ class C25(Property):
         if '__exception__' in out:
             raise ValueError('harness/implementation raised %s: %s' % (out['__exception__'], out.get('msg')))
         ops = out['ops'][:len(out['snaps']) - 1]
-        return coq(C('chk_history_full', disk_model(case['proj']), seed_model(case['proj']), [op_model(o) for o in ops],
+        return coq(C('chk_history_full', disk_model(case['proj']), seed_model(case['proj'], case.get('seeds')), [op_model(o) for o in ops],
                      obs_model(out['snaps'][0]), [obs_model(s) for s in out['snaps'][1:]]))
 
     def oracle(self, case, out):
@@ -502,7 +532,7 @@ class C25(Property):
 
     def show_model(self, case, out):
         if 'snaps' not in out: return []
-        disk, seed = coq(disk_model(case['proj'])), coq(seed_model(case['proj']))
+        disk, seed = coq(disk_model(case['proj'])), coq(seed_model(case['proj'], case.get('seeds')))
         ops = coq([op_model(o) for o in out['ops'][:len(out['snaps']) - 1]])
         f = ('(fun st => (top_cache st, map node_obs (st_nodes st), map (fun e => (nname (fst e), nname (snd e))) (st_edges st), '
              'map (fun p => (fst p, snd p, proc_ir st (fst p) (snd p))) (proc_nodes st)))')
